@@ -104,6 +104,10 @@ def load(db, content):
     con.execute("PRAGMA foreign_keys = OFF")
     con.execute("DELETE FROM node")
     for table, rows in content.items():
+        try:
+            con.execute(f"DELETE FROM {{table}}")
+        except Exception:
+            pass
         for row in rows:
             cols = list(row)
             try:
@@ -111,8 +115,13 @@ def load(db, content):
             except Exception as exc:
                 if "no such table" not in str(exc):
                     raise
-    for _, sql in trig + ttrig:
+    for _, sql in trig:
         con.execute(sql)
+    for _, sql in ttrig:
+        con.execute(sql if "TEMP" in sql.split("TRIGGER")[0].upper() else sql.replace("CREATE TRIGGER", "CREATE TEMP TRIGGER", 1))
+    # the progress counters are rebuilt from the loaded rows, as a fresh connection would do
+    con.execute("DELETE FROM step_need_count")
+    con.execute("INSERT INTO step_need_count (implied_need, succeeded, n) SELECT step._implied_need, step.state = 23, count(*) FROM node JOIN step ON node.i = step.node WHERE NOT node.detached GROUP BY 1, 2")
     con.execute("PRAGMA foreign_keys = ON")
 
 async def main():
@@ -418,4 +427,203 @@ def _classify_safe(state):
 OBLIGATIONS = [
     Ob("O10.1", o10_1, "SELECT_NEXT_STEP sound and complete on coherent caches", weight=3),
     Ob("O10.2s", o10_2_safe, "_update_meta_safe recomputes _safe/_safe_ignoring_hold exactly", weight=4, timeout={"quick": 1500, "thorough": 5400}),
+]
+
+
+# ---------------------------------------------------------------------------------------------
+# O10.2r / O10.2a : _update_meta_ready and _update_meta_after
+# ---------------------------------------------------------------------------------------------
+
+
+def _explore(res, name, K, D, pre, action, post, extra_caps=None, max_paths=300, on_violation=None, labels=None, cte_depth=None):
+    """Generic inductive-step driver: fresh symbolic state, assume pre, run action natively, check post."""
+    counts = {"paths": 0, "raised": 0}
+
+    def body(run):
+        wf = Wf(K=K, D=D, extra_caps=extra_caps or {}, labels=labels)
+        wf.ctx.cte_depth = cte_depth or K
+        for c in wf.cons + wf.inv():
+            run.assume(c)
+        for c in pre(wf):
+            run.assume(c)
+        db = SymDB(wf.ctx, run)
+        w, s = make_scheduler(db)
+        aux = {}
+
+        def thunk():
+            action(wf, w, s, aux)
+            return wf, aux
+
+        return db, thunk
+
+    def on_path(pr):
+        counts["paths"] += 1
+        if pr.outcome == "raise":
+            counts["raised"] += 1
+            exc = pr.value
+            from stepup.core.exceptions import UsageError
+
+            if isinstance(exc, UsageError):
+                return  # a rejected request: allowed outcome
+            v, m, dt = pr.run.query()
+            res.q(f"{name}: no internal error ({type(exc).__name__}: {str(exc)[:80]})", "sat" if v == "sat" else v, dt)
+            if v == "sat":
+                res.inconclusive.append(f"{name}: raised {type(exc).__name__}: {exc} on a feasible path (state: {_content_json(Wf(K=K, D=D, extra_caps=extra_caps or {}, labels=labels), m)[:600]})")
+            return
+        wf, aux = pr.value
+        _unwinding(res, pr, wf)
+        bad = post(wf, aux)
+        v, m, dt = pr.run.query(z3.Or(*bad) if bad else z3.BoolVal(False))
+        res.q(f"{name}: post-condition on path {counts['paths']}", v, dt)
+        if v == "sat":
+            which = [i for i, b in enumerate(bad) if z3.is_true(m.eval(b, model_completion=True))]
+            wf0 = Wf(K=K, D=D, extra_caps=extra_caps or {}, labels=labels)
+            content = _content_json(wf0, m)
+            if on_violation is not None:
+                on_violation(res, wf0, m, content, which, aux)
+            else:
+                res.inconclusive.append(f"{name}: post-condition fails (clauses {which}) from state {content[:900]} (no replay defined)")
+
+    ex = Explorer(max_paths=max_paths)
+    try:
+        ex.explore(body, on_path)
+    except Unsupported as exc:
+        res.inconclusive.append(f"{name}: outside the encoded subset: {exc}")
+    res.extra.setdefault("paths", {})[name] = counts["paths"]
+    return counts
+
+
+def _replay_generic(res, oid, key, content, body_code, what, targets=None):
+    rp = write_replay("C10", oid, f"{key} {content}", REPLAY_DB.format(content=content, targets=targets or {}, body=body_code))
+    ok, out = run_replay(rp)
+    if ok:
+        if not any(v.key == key for v in res.violations):
+            res.violations.append(Violation(key, what + ": " + out.strip().splitlines()[-1][:300], {"state": json.loads(content)}, rp))
+    else:
+        res.inconclusive.append(f"{key}: model does not reproduce on the real code: {out[-500:]}")
+
+
+BODY_READY = '''        async with db:
+            sched._update_meta_ready()
+            got = dict(db.execute("SELECT node, _ready FROM step").fetchall())
+            flags = db.execute("SELECT count(*) FROM step WHERE _check_ready").fetchone()[0]
+            want = {}
+            for (n,) in db.execute("SELECT node FROM step").fetchall():
+                blocked = db.execute("""SELECT count(*) FROM dependency d JOIN file f ON f.node = d.source JOIN node fn ON fn.i = d.source
+                    LEFT JOIN dynamic_dep dd ON dd.i = d.i WHERE d.sink = ? AND (f.state = 18
+                    OR (dd.i IS NOT NULL AND NOT fn.detached AND f.state IN (15, 17))
+                    OR (dd.i IS NULL AND (fn.detached OR f.state NOT IN (16, 14))))""", (n,)).fetchone()[0]
+                want[n] = int(blocked == 0)
+        print("_ready after recompute:", got, "definition:", want, "flags left:", flags)
+        return 1 if (got != want or flags) else 0
+'''
+
+
+def o10_2_ready(tier):
+    import stepup.core.scheduler as sch
+    import stepup.core.step as stp
+
+    res = ObResult()
+    K, D = (4, 3) if tier == "quick" else (5, 4)
+    res.bounds = f"{K} node slots, {D} dependency edges (initial or dynamic); pre: every step without _check_ready has _ready equal to its definition"
+    res.encoded += [enc(sch.RECOMPUTE_READY, "scheduler.RECOMPUTE_READY"), enc(stp.UNAVAILABLE_INPUT_WHERE, "step.UNAVAILABLE_INPUT_WHERE"), enc(sch.Scheduler._update_meta_ready)]
+
+    def pre(wf):
+        return [z3.Implies(z3.And(bz(wf.steps[j].present), wf.steps[j].vals["_check_ready"].v == 0), (wf.steps[j].vals["_ready"].v == 1) == wf.def_ready(j)) for j in range(wf.K)]
+
+    def action(wf, w, s, aux):
+        s._update_meta_ready()
+
+    def post(wf, aux):
+        bad = []
+        for j in range(wf.K):
+            sp = bz(wf.steps[j].present)
+            bad.append(z3.And(sp, wf.steps[j].vals["_check_ready"].v != 0))
+            bad.append(z3.And(sp, (wf.steps[j].vals["_ready"].v == 1) != wf.def_ready(j)))
+        return bad
+
+    def viol(res, wf0, m, content, which, aux):
+        _replay_generic(res, "O10.2r", "O10.2r:ready", content, BODY_READY, "after _update_meta_ready a step's _ready disagrees with its definition")
+
+    c = _explore(res, "_update_meta_ready", K, D, pre, action, post, on_violation=viol)
+    res.twin("the recomputation is explored", "sat" if c["paths"] >= 2 else "unsat", 0.0)
+    res.nontrivial = len(res.queries)
+    return res
+
+
+def consumer_flagged(wf: Wf, j):
+    """some attached step that consumes an output of step j carries _check_after"""
+    terms = []
+    for f in range(wf.K):
+        for t2 in range(wf.K):
+            if t2 == j:
+                continue
+            e = z3.And(wf.dep_edge(j, f), wf.dep_edge(f, t2), bz(wf.steps[t2].present), wf.attached(t2))
+            terms.append(z3.And(e, wf.steps[t2].vals["_check_after"].v == 1))
+    return z3.Or(*terms) if terms else z3.BoolVal(False)
+
+
+def after_invariant(wf: Wf):
+    """INV_after: an attached step that is not flagged, and none of whose attached consumers is
+    flagged, satisfies the one-hop need equation on the cached values.  (A flagged consumer is
+    recomputed and -- in the first round unconditionally -- pushes the recomputation upstream.)"""
+    loc = wf.local_need()
+    out = []
+    for j in range(wf.K):
+        s = wf.steps[j]
+        quiet = z3.And(bz(s.present), wf.attached(j), s.vals["_check_after"].v == 0, z3.Not(consumer_flagged(wf, j)))
+        out.append(z3.Implies(quiet, s.vals["_implied_need"].v == loc[j]))
+    return out
+
+
+BODY_AFTER = '''        async with db:
+            sched._update_meta_after()
+            rows = db.execute("SELECT step.node, _implied_need, _check_after FROM step JOIN node ON node.i = step.node WHERE NOT node.detached").fetchall()
+        print("after _update_meta_after (node, _implied_need, flag):", rows, "definition:", expected)
+        got = {r[0]: r[1] for r in rows}
+        bad = [n for n, v in expected if got.get(n) != v] + [r[0] for r in rows if r[2]]
+        return 1 if bad else 0
+'''
+
+
+def o10_2_after(tier):
+    import stepup.core.scheduler as sch
+
+    res = ObResult()
+    K, D = (4, 3) if tier == "quick" else (5, 4)
+    res.bounds = f"{K} node slots, {D} dependency edges, 2 target paths, 1 target directory; pre: every attached step without _check_after satisfies the one-hop equation on the cached values"
+    res.encoded += [enc(sch.UPDATE_CHECK_AFTER, "scheduler.UPDATE_CHECK_AFTER"), enc(sch.PROPAGATE_CHECK_AFTER, "scheduler.PROPAGATE_CHECK_AFTER"), enc(sch.SEED_CHECK_AFTER, "scheduler.SEED_CHECK_AFTER"), enc(sch.Scheduler._update_meta_after)]
+
+    def pre(wf):
+        return after_invariant(wf)
+
+    def action(wf, w, s, aux):
+        aux["need"] = wf.def_need()  # the definition does not read the cache columns
+        s._update_meta_after()
+
+    def post(wf, aux):
+        need = aux["need"]
+        bad = []
+        for j in range(wf.K):
+            s = wf.steps[j]
+            sp = bz(s.present)
+            bad.append(z3.And(sp, s.vals["_check_after"].v != 0))
+            bad.append(z3.And(sp, wf.attached(j), s.vals["_implied_need"].v != need[j]))
+        return bad
+
+    def viol(res, wf0, m, content, which, aux):
+        need = wf0.def_need()
+        expected = [(j + 1, m.eval(need[j], model_completion=True).as_long()) for j in range(wf0.K) if z3.is_true(m.eval(z3.And(bz(wf0.steps[j].present), wf0.attached(j)), model_completion=True))]
+        body = f"        expected = {expected!r}\n" + BODY_AFTER
+        _replay_generic(res, "O10.2a", "O10.2a:need", content, body, "after _update_meta_after a step's _implied_need disagrees with the least fixed point", targets=_targets_from_model(wf0, m))
+
+    c = _explore(res, "_update_meta_after", K, D, pre, action, post, on_violation=viol, max_paths=600)
+    res.twin("the recomputation is explored", "sat" if c["paths"] >= 2 else "unsat", 0.0)
+    res.nontrivial = len(res.queries)
+    return res
+
+
+OBLIGATIONS += [
+    Ob("O10.2r", o10_2_ready, "_update_meta_ready recomputes _ready exactly", weight=3, timeout={"quick": 1500, "thorough": 5400}),
+    Ob("O10.2a", o10_2_after, "_update_meta_after computes the least fixed point of the need equation (also C11/O11.1)", weight=5, timeout={"quick": 2400, "thorough": 7200}),
 ]
